@@ -84,9 +84,9 @@ SIZES = {'quick': dict(n_types=8, per_type=10, n_values=6, ser_per_type=8, max_t
 def matrix(tier: str) -> typing.List[typing.Tuple[str, dict]]:
     m = [('target_c', {'target_endianness': 'little', 'sanitize': True}),
          ('target_c', {'target_endianness': 'any', 'sanitize': True}),
-         ('target_cpp', {'std': 'c++14', 'sanitize': True, 'leak_check_each': True, 'cxx': 'clang++', 'opt': '-O0'}),   # -O0: UBSan alignment checks on typed loads survive
+         ('target_cpp', {'std': 'c++14', 'sanitize': True, 'leak_check_each': True, 'cxx': 'clang++', 'opt': '-O0', 'target_endianness': 'little'}),   # -O0: UBSan alignment checks on typed loads survive
          ('target_cpp', {'std': 'c++17', 'sanitize': True, 'leak_check_each': True, 'cxx': 'clang++'}),
-         ('target_cpp', {'std': 'c++17-pmr', 'sanitize': True, 'leak_check_each': True, 'cxx': 'clang++'})]
+         ('target_cpp', {'std': 'c++17-pmr', 'sanitize': True, 'leak_check_each': True, 'cxx': 'clang++', 'target_endianness': 'big'})]
     if tier != 'quick':
         m += [('target_c', {'target_endianness': 'big', 'sanitize': True, 'enable_serialization_asserts': True}),
               ('target_c', {'target_endianness': 'little', 'sanitize': True, 'cc': 'gcc'}),
@@ -187,6 +187,18 @@ def ser_cases(rng, prep, tids, sz) -> typing.List[campaign.Case]:
             for cap, tg in ((maxb - 1, 'cap_max_minus_1'), (0, 'cap_0')):
                 if cap >= 0 and cap != maxb:
                     extra.append(campaign.Case('ser', c.tid, value=c.value, cap=cap, fill='f', tags=[t for t in c.tags if t != 'cap_max'] + [tg]))
+    # every top-level variable-length array once with count = capacity + 1 (the length check must fire before any element is touched)
+    for tid in tids:
+        c = prep.db.comp(tid)
+        if c['kind'] != 'struct':
+            continue
+        for fi, f in enumerate(c['fields']):
+            t = f['type']
+            if t['k'] == 'varr' and t['cap'] < 300:
+                v = valgen.default_comp(prep.db, c)
+                v[fi] = [valgen.default_value(prep.db, t['elem']) for _ in range(t['cap'] + 1)]
+                maxb = (c['meta']['max_bits'] + 7) // 8
+                extra.append(campaign.Case('ser', tid, value=v, cap=maxb, fill='z', tags=['array_len_over_cap', 'cap_max', 'over_cap_each_field']))
     return out + extra
 
 
@@ -504,7 +516,8 @@ def main(chk: core.Check, replay: typing.Optional[str] = None) -> int:
         for f in failures:
             rep = {k: v for k, v in f.items() if not k.startswith('_')}
             rep['broken'] = broken
-            chk.violation(rep, found_input=bool(f.get('found_input')) or f['kind'] == 'prior-dependence')
+            san = isinstance(f.get('got'), dict) and bool(f['got'].get('report'))
+            chk.violation(rep, found_input=bool(f.get('found_input')) or f['kind'] == 'prior-dependence' or (f['kind'] == 'probe' and san))
             reported = True
             break
     if not reported and broken:
